@@ -45,7 +45,7 @@ func depth(tier string) int {
 	return 8
 }
 
-var opts = senderkit.Opts{Crashes: true, MaxCrashEvents: 2, NoAdvance: true}
+var opts = senderkit.Opts{Crashes: true, MaxCrashEvents: 2, NoAdvance: true, Contradictions: true}
 
 func worldDir(u mc.Unit) string {
 	return filepath.Join(senderkit.ScratchRoot(), fmt.Sprintf("c13-%d-%s", os.Getpid(), u.Name))
